@@ -1196,7 +1196,7 @@ def matmul_core(x: T, y: T, dtype=None) -> T:
     m, kk = xa.shape[-2:]
     k2, n = ya.shape[-2:]
     if kk != k2:
-        raise NotEncodable("matmul shape mismatch")
+        raise ShapeMismatch(f"MatMul/Gemm inner dimensions differ: {kk} vs {k2}")
     out = _obj(bshape + (m, n))
     if k == "i":
         mulf = lambda a, b: i_mul(a, b, dt)
